@@ -59,6 +59,7 @@ struct Layout {
   uint64_t seed = 1;   // drives every layout decision
   int nfiles = 1;      // target number of files (main + included)
   int spelling = 0;    // 0 upper, 1 capitalised, 2 lower, 3 mixed
+  int naming = 0;      // 0 inc1.theo / shared1.theo / ...; 1 every name extends the main file's name and each other (main.theo.1, main.theo.12, ...)
 };
 
 struct Loc {
@@ -117,6 +118,7 @@ struct GenParams {
   bool init_vars = false;         // routines start by giving some variables non-zero values, so that loops iterate
   bool stop_in_callee = false;    // a STOP statement is placed inside a called program
   int locality = 0;               // percent: a statement reuses the variable of the previous one; IFs come in chains on one variable
+  int loop_back_head = 0;         // percent of routine bodies that begin with a counted label/GOTO loop whose label is the body's very first statement
   int jump_into_loop = 0;         // percent of routine bodies that get an explicit "jump into a (nested) loop body" pattern
 };
 Ast generate_ast(Rng &rng, const GenParams &gp);
